@@ -9,6 +9,8 @@
 (* stays a well-formed value (keys unique, Put in place), every content    *)
 (* round-trips and re-encodes identically in the reference format, and     *)
 (* what a write produced is the encoding of the content of that moment.    *)
+(* Read-only calls (Look) on any node at any moment are identity steps; the*)
+(* results the content defines are accepted and altered ones refused.      *)
 (***************************************************************************)
 EXTENDS ValueObj, TLC
 
@@ -56,6 +58,35 @@ OpsOf(x) ==
   ELSE IF x.t = TDecimal THEN << [op |-> "SetVal", v |-> VDecimal(N2)] >>
   ELSE <<>>
 
+\* read-only calls on a node, with the results the content defines
+LooksOf(x) ==
+     << [op |-> "GetValueType", r |-> x.t], [op |-> "Write", r |-> EncBody(x)], [op |-> "WriteValue", r |-> EncValue(x)],
+        [op |-> "Equals", with |-> "self", r |-> TRUE], [op |-> "Other", name |-> "ToString"],
+        [op |-> "CompareTo", with |-> "node", path2 |-> <<>>, r |-> 1],
+        [op |-> "CompareTo", with |-> "value", arg |-> Vals[4], after |-> Vals[4], r |-> 0 - 1] >>
+  \o (IF x.t \in ContainerCodes THEN << [op |-> "Size", r |-> Len(x.v)] >> ELSE <<>>)
+  \o (IF x.t = TList /\ Len(x.v) > 0
+      THEN << [op |-> "Get", i |-> 1, r |-> [v |-> x.v[1]]], [op |-> "GetString", i |-> Len(x.v), r |-> IF x.v[Len(x.v)].t = TText THEN x.v[Len(x.v)].v ELSE <<>>],
+              [op |-> "GetBool", i |-> 1, r |-> IF x.v[1].t = TBool THEN x.v[1].v ELSE FALSE] >> ELSE <<>>)
+  \o (IF x.t = TMap
+      THEN << [op |-> "IsEmpty", r |-> Len(x.v) = 0], [op |-> "ContainsKey", k |-> K1, r |-> KeyPos(x.v, K1) > 0],
+              [op |-> "Keys", r |-> [j \in 1..Len(x.v) |-> x.v[j][1]]],
+              [op |-> "Get", k |-> K2, r |-> IF KeyPos(x.v, K2) > 0 THEN [v |-> x.v[KeyPos(x.v, K2)][2]] ELSE [nil |-> TRUE]],
+              [op |-> "GetLong", k |-> K2, r |-> IF KeyPos(x.v, K2) > 0 /\ x.v[KeyPos(x.v, K2)][2].t = TDecimal THEN x.v[KeyPos(x.v, K2)][2].v ELSE Fill(8, 0)],
+              [op |-> "GetFloat", k |-> K1, r |-> Fill(4, 0)] >> ELSE <<>>)
+  \o (IF x.t = TIntMap
+      THEN << [op |-> "Keys", r |-> [j \in 1..Len(x.v) |-> x.v[j][1]]],
+              [op |-> "Get", k |-> N1, r |-> IF KeyPos(x.v, N1) > 0 THEN [v |-> x.v[KeyPos(x.v, N1)][2]] ELSE [nil |-> TRUE]] >> ELSE <<>>)
+
+\* the same calls reporting something else: each must be refused
+WrongLooksOf(x) ==
+     << [op |-> "GetValueType", r |-> x.t + 1], [op |-> "Write", r |-> EncBody(x) \o <<0>>], [op |-> "WriteValue", r |-> EncBody(x)],
+        [op |-> "CompareTo", with |-> "value", arg |-> Vals[4], after |-> VMap(<<>>), r |-> 0],
+        [op |-> "Equals", with |-> "node", path2 |-> << [i |-> 99] >>, r |-> TRUE] >>
+  \o (IF x.t \in ContainerCodes THEN << [op |-> "Size", r |-> Len(x.v) + 1] >> ELSE <<>>)
+  \o (IF x.t \in {TMap, TIntMap} /\ Len(x.v) > 0 THEN << [op |-> "Keys", r |-> [j \in 1..Len(x.v) |-> x.v[Len(x.v) + 1 - j][1]] \o <<x.v[1][1]>>] >> ELSE <<>>)
+  \o (IF x.t = TList /\ Len(x.v) > 0 THEN << [op |-> "Get", i |-> 1, r |-> [nil |-> TRUE]] >> ELSE <<>>)
+
 \* every path of the current content, the root first
 RECURSIVE AllPaths(_), KidPaths(_, _)
 StepOf(x, p) == IF x.t = TList THEN [i |-> p] ELSE [k |-> x.v[p][1]]
@@ -70,6 +101,10 @@ MCNext == \/ \E i \in 1..Len(Roots) : New(Roots[i]) /\ UNCHANGED steps
              /\ \E ps \in {AllPaths(cur)} : \E j \in 1..Len(ps) :
                   \E os \in {OpsOf(NodeAt(cur, ps[j], 1))} : \E i \in 1..Len(os) : Mut(ps[j], os[i])
              /\ steps' = steps + 1
+          \/ /\ cur # <<>> /\ steps = 0   \* a read-only call on any node of a root, before and after writes: no new state
+             /\ \E ps \in {AllPaths(cur)} : \E j \in 1..Len(ps) :
+                  \E os \in {LooksOf(NodeAt(cur, ps[j], 1))} : \E i \in 1..Len(os) : Look(ps[j], os[i])
+             /\ UNCHANGED steps
           \/ nw <= steps /\ WriteObj /\ UNCHANGED steps       \* at most one write more than calls: bounded
           \/ Adopt /\ UNCHANGED steps
 
@@ -84,4 +119,9 @@ ASSUME LET all == UNION { UNION { {OpsOf(NodeAt(Roots[i], AllPaths(Roots[i])[j],
                                        k \in 1..Len(OpsOf(NodeAt(Roots[i], AllPaths(Roots[i])[j], 1)))} :
                                   j \in 1..Len(AllPaths(Roots[i]))} : i \in 1..Len(Roots)}
        IN all = {"Add", "AddString", "AddLong", "Set", "Clear", "Read", "Put", "PutString", "PutLong", "NewList", "PutAll", "SetVal", "SetElem"}
+\* read-only calls: what the content defines is accepted, anything else is refused
+ASSUME \A i \in 1..Len(Roots) : \A j \in 1..Len(AllPaths(Roots[i])) :
+          LET n == NodeAt(Roots[i], AllPaths(Roots[i])[j], 1) IN
+            /\ \A k \in 1..Len(LooksOf(n)) : LookSees(n, LooksOf(n)[k], Roots[i])
+            /\ \A k \in 1..Len(WrongLooksOf(n)) : ~LookSees(n, WrongLooksOf(n)[k], Roots[i])
 =============================================================================
